@@ -420,7 +420,7 @@ func c10Facts(repo string, facts map[string]any) {
 				fail("C10: call of " + callee + " in " + f.name + " has no position argument")
 				return
 			}
-			s := c10Site{File: f.file, Func: f.name, Line: fset.Position(c.Pos()).Line, Callee: callee, PosExpr: src(c.Args[idx])}
+			s := c10Site{File: f.file, Func: f.short, Line: fset.Position(c.Pos()).Line, Callee: callee, PosExpr: src(c.Args[idx])}
 			s.Origins = c10ShapeOf(f, path, c.Args[idx], 0)
 			sites = append(sites, s)
 		})
@@ -482,6 +482,9 @@ func c10Facts(repo string, facts map[string]any) {
 	// errPass callers and direct p.err assignments
 	var errpass, errAssigns []string
 	for _, f := range fns {
+		if !strings.HasPrefix(f.name, "Parser.") {
+			continue
+		}
 		ast.Inspect(f.decl.Body, func(n ast.Node) bool {
 			switch x := n.(type) {
 			case *ast.CallExpr:
